@@ -159,19 +159,18 @@ static void set_env(const Decl& d, const std::string& field)
 
 static bool canon_int(const std::string& s, long long& out)
 {
-    if (s.empty() || s.size() > 11)
-        return false;
-    std::size_t i = s[0] == '-' ? 1 : 0;
+    // decimal text of an int: optional '-', 1-10 digits (leading zeros are still decimal), in range
+    std::size_t i = (!s.empty() && s[0] == '-') ? 1 : 0;
     if (i == s.size() || s.size() - i > 10)
         return false;
-    if (s[i] == '0' && s.size() - i > 1)
-        return false;
+    long long n = 0;
     for (std::size_t k = i; k < s.size(); k++)
+    {
         if (s[k] < '0' || s[k] > '9')
             return false;
-    if (s == "-0")
-        return false;
-    out = std::stoll(s);
+        n = n * 10 + (s[k] - '0');
+    }
+    out = i ? -n : n;
     return out >= INT_MIN && out <= INT_MAX;
 }
 
